@@ -66,6 +66,8 @@ theorem C18_inert_denotes (t : Tmpl) (h : wfT [[]] t = true) (hi : isInert t = t
   | block s => simp [isInert] at hi
   | frag k => simp [isInert] at hi
   | comp k => simp [isInert] at hi
+  | comment c => simp [isInert] at hi
+  | doctype => simp [isInert] at hi
 
 /-- **both paths yield the same document** for every element the macro may print at compile time. -/
 theorem C18_paths_agree (t : Tmpl) (h : wfT [[]] t = true) (hi : isInert t = true) :
@@ -163,6 +165,8 @@ theorem C18_twin_same_view : (t : Tmpl) → builderView (dynamize t) = builderVi
   | .elem tag attrs kids => by simp [dynamize, builderView, builderAttrs_dyn, C18_twin_same_view_kids kids]
   | .frag kids => by simp [dynamize, builderView, C18_twin_same_view_kids kids]
   | .comp kids => by simp [dynamize, builderView, C18_twin_same_view_kids kids]
+  | .comment _ => by simp [dynamize]
+  | .doctype => by simp [dynamize]
 theorem C18_twin_same_view_kids : (ts : List Tmpl) → builderKids (dynKids ts) = builderKids ts
   | [] => by simp [dynKids, builderKids]
   | t :: ts => by simp [dynKids, builderKids, C18_twin_same_view t, C18_twin_same_view_kids ts]
@@ -197,6 +201,8 @@ theorem C18_twin_same_meaning : (t : Tmpl) → ∀ esc acc, denK esc (dynamize t
   | .elem tag attrs kids, _, _ => by simp [dynamize, denK, denAttrs_dyn, C18_twin_same_meaning_kids kids]
   | .frag kids, _, _ => by simp [dynamize, denK, C18_twin_same_meaning_kids kids]
   | .comp kids, _, _ => by simp [dynamize, denK, C18_twin_same_meaning_kids kids]
+  | .comment _, _, _ => by simp [dynamize]
+  | .doctype, _, _ => by simp [dynamize]
 theorem C18_twin_same_meaning_kids : (ts : List Tmpl) → ∀ esc acc, denKs esc (dynKids ts) acc = denKs esc ts acc
   | [], _, _ => by simp [dynKids, denKs]
   | t :: ts, esc, acc => by simp [dynKids, denKs, C18_twin_same_meaning t, C18_twin_same_meaning_kids ts]
